@@ -56,6 +56,13 @@ type crashFS struct {
 	held       int
 	release    chan struct{}
 
+	// torn-write variant: when operation `target` is a Write/WriteAt, the wrapper
+	// records, before executing it, where the write goes, what it carries and which
+	// bytes of the file it overwrites (a recycled log is overwritten in place), so
+	// that images holding only a prefix of that write can be built from the keep image.
+	pendingTorn *tornWrite
+	torn        *tornWrite
+
 	crashed    atomic.Bool
 	keep       *vfs.MemFS
 	cloneErr   error
@@ -136,6 +143,7 @@ func (c *crashFS) done(kind, name string) {
 	sort.Strings(c.unsyncedAtK)
 	c.kindAtK = kind
 	c.firedAt = c.n
+	c.torn = c.pendingTorn
 	c.startedAtK = c.started.Load()
 	c.ackedAtK = c.acked.Load()
 	keep := vfs.NewMem()
@@ -254,21 +262,30 @@ type cFile struct {
 	c     *crashFS
 	isDir bool
 	name  string
+	// pos is the file offset the next sequential Write goes to: every handle the
+	// strict MemFS hands out for writing (Create, ReuseForWrite, OpenReadWrite)
+	// starts writing at offset 0 and advances by the bytes written through it.
+	pos int64
 }
 
 func (f *cFile) Write(p []byte) (int, error) {
 	f.c.mu.Lock()
 	defer f.c.mu.Unlock()
+	f.c.pendingTorn = f.c.beforeWrite(f.name, f.pos, p, true)
 	n, err := f.File.Write(p)
+	f.pos += int64(n)
 	f.c.done("file.write", f.name)
+	f.c.pendingTorn = nil
 	return n, err
 }
 
 func (f *cFile) WriteAt(p []byte, off int64) (int, error) {
 	f.c.mu.Lock()
 	defer f.c.mu.Unlock()
+	f.c.pendingTorn = f.c.beforeWrite(f.name, off, p, false)
 	n, err := f.File.WriteAt(p, off)
 	f.c.done("file.writeat", f.name)
+	f.c.pendingTorn = nil
 	return n, err
 }
 
@@ -339,7 +356,7 @@ func (f *cFile) Close() error {
 // each file independently either keeps its unsynced data or is rolled back to
 // what had been synced (its content in the drop image, when the drop image has
 // a file of that name). Must be called before either image is reopened.
-func mixImage(keep, drop *vfs.MemFS, dir string, pick func() bool) (*vfs.MemFS, int, error) {
+func mixImage(keep, drop *vfs.MemFS, dir string, pick func(name string) bool) (*vfs.MemFS, int, error) {
 	out := vfs.NewMem()
 	if err := out.MkdirAll(dir, 0o755); err != nil {
 		return nil, 0, err
@@ -359,7 +376,7 @@ func mixImage(keep, drop *vfs.MemFS, dir string, pick func() bool) (*vfs.MemFS, 
 			}
 			continue
 		}
-		if pick() {
+		if pick(name) {
 			if st, err := drop.Stat(p); err == nil && !st.IsDir() {
 				src = drop
 				rolled++
